@@ -29,6 +29,7 @@ type c08Case struct {
 	Order  []int            `json:"release_order"`
 	Poison string           `json:"poison_root_field,omitempty"`
 	Jitter uint64           `json:"jitter_seed"`
+	Cfg    rig.Config       `json:"config"`
 }
 
 func (c08) ID() string            { return "C08" }
@@ -106,8 +107,33 @@ func (p c08) Gen(c *run.Ctx, idx int) (json.RawMessage, error) {
 		cs.Ops = append(cs.Ops, *op)
 		cs.Gated = append(cs.Gated, r.Intn(3) == 0 && op.OperationName == name)
 	}
+	// the same operation at several positions (verbatim copies, and twins that differ only in explicitly selected ids)
+	if len(cs.Ops) >= 2 && r.Intn(2) == 0 {
+		k := 1 + r.Intn(3)
+		for j := 0; j < k; j++ {
+			src, dst := r.Intn(len(cs.Ops)), r.Intn(len(cs.Ops))
+			if src == dst {
+				continue
+			}
+			cp := cs.Ops[src]
+			if tw := opTwins(&cp); len(tw) > 0 && r.Intn(2) == 0 {
+				cp = tw[r.Intn(len(tw))]
+			}
+			cs.Ops[dst], cs.Gated[dst] = cp, cs.Gated[src]
+		}
+	}
+	if r.Intn(3) == 0 {
+		cs.Cfg.Planner, cs.Cfg.TTLms = "cached", 3600000
+	}
 	var gated []int
+	seenGate := map[string]bool{}
 	for i, g := range cs.Gated {
+		if g && seenGate[cs.Ops[i].OperationName] {
+			continue // one gate per operation name
+		}
+		if g {
+			seenGate[cs.Ops[i].OperationName] = true
+		}
 		if g {
 			gated = append(gated, i)
 		}
@@ -154,9 +180,19 @@ func (p c08) Exec(c *run.Ctx, idx int, raw json.RawMessage) []run.Result {
 		return []run.Result{{Verdict: "broken", Message: err.Error()}}
 	}
 	res := run.Result{Verdict: run.Held, Counters: map[string]int{}}
-	r, err := rig.New(sp.U, rig.Config{})
+	r, err := rig.New(sp.U, sp.Cfg)
 	if r != nil {
 		defer r.Close()
+	}
+	if err != nil {
+		res.Verdict = run.Skip
+		res.Counters["setup_failed"] = 1
+		return []run.Result{res}
+	}
+	// "sent alone": a second gateway with the plain (stateless) planner that never sees the batch
+	ra, err := rig.New(sp.U, rig.Config{})
+	if ra != nil {
+		defer ra.Close()
 	}
 	if err != nil {
 		res.Verdict = run.Skip
@@ -209,11 +245,14 @@ func (p c08) Exec(c *run.Ctx, idx int, raw json.RawMessage) []run.Result {
 			}
 		}
 	}
+	for _, s := range ra.Services {
+		s.FaultFn = r.Services[0].FaultFn
+	}
 	// alone runs
 	alone := make([]*rig.GQLResponse, len(sp.Ops))
 	kinds := map[string]bool{}
 	for i := range sp.Ops {
-		hr := r.Query(&sp.Ops[i])
+		hr := ra.Query(&sp.Ops[i])
 		if hr.Panic != nil {
 			res.Verdict, res.Symptom, res.Message = run.Violated, "handler-panic(single): "+errTemplate(fmt.Sprint(hr.Panic)), fmt.Sprint(hr.Panic)+"\n"+hr.Stack
 			return []run.Result{res}
